@@ -30,6 +30,13 @@ CHECKS = {
              'recording-off and second-graph isolation are asserted.',
         note='direct execution through the generic algopy API is the reference; tolerance 1e-13; programs <= 12 instructions, D <= 4, P <= 3',
         ref='DESIGN.md section 4, C05'),
+    'C04': dict(
+        technique='property-based testing (Hypothesis, concolic program generation): differential test of all graph drivers against forward-mode-only derivatives of the direct program; metamorphic relation across recording point/kind/degree',
+        text='Generated programs R^N -> R / R^M are recorded twice (ndarray at one point, UTPM of a drawn degree at another) and all eight drivers '
+             '(+ jacobian of a UTPM argument, gradient of a list) are evaluated at a point different from both recording points and at the recording '
+             'point; results are compared with first/second order forward-mode derivatives of the direct program and between the two graphs.',
+        note='forward mode on the direct program is the reference (C01/C02/C07/C08/C09/C12); tolerance 1e-9 relative; N <= 4, programs <= 8 instructions',
+        ref='DESIGN.md section 4, C04'),
 }
 
 NOT_BUILT = 'check not built yet in this session (planned, see DESIGN.md section 4)'
